@@ -22,6 +22,10 @@ Definition pre_bitset_str (str : list Z) (pos n zero one : Z) : bool :=
   forallb (fun c => (c =? zero) || (c =? one))
           (firstn (Z.to_nat (Z.min n (slen str - pos))) (skipn (Z.to_nat pos) str)).
 
+(* erase(first, last) / replace(first, last, ...): [first, last) is a range of the string [string.erase], [string.replace]:
+   first = begin() + a, last = first + d with  0 <= a,  0 <= d  and  a + d <= size() *)
+Definition pre_iter_range (size a d : Z) : bool := (0 <=? a) && (0 <=? d) && (a + d <=? size).
+
 (* to_string<Capacity>(val): the decimal text of val (a '-' for negative values, then the digits without leading
    zeros; "0" for zero) has at most Capacity characters.  For val <> 0 the digit count is the least d with
    |val| < 10^d, so the text fits iff |val| < 10^(Capacity - sign characters)  (10^negative = 0 in Z) *)
@@ -39,6 +43,26 @@ Inductive fmt_ok : list Z -> Prop :=
 | fmt_plain l : starts_no_escape l -> fmt_ok l
 | fmt_escape pre inner post : no_char 123 pre -> no_char 125 inner -> fmt_ok post ->
     fmt_ok (pre ++ 123 :: 123 :: inner ++ 125 :: 125 :: post).
+
+(* the same language as an automaton that reads the text once, left to right (an executable form of [fmt_ok], proved
+   equivalent in ProofsFormat.v; it is the spec leg of the `fmt` probes):
+     FPlain  outside an escape, no pending '{'        FOpen   the first '{' of the rest was just read
+     FEsc    inside "{{ ... ", no '}' seen yet         FClose  the first '}' of the escape was just read
+     FAccept the first '{' was not doubled: the rest of the text is copied as it is         FFail  malformed *)
+Inductive fmt_state := FPlain | FOpen | FEsc | FClose | FAccept | FFail.
+Definition fmt_next (st : fmt_state) (c : Z) : fmt_state :=
+  match st with
+  | FPlain => if c =? 123 then FOpen else FPlain
+  | FOpen => if c =? 123 then FEsc else FAccept
+  | FEsc => if c =? 125 then FClose else FEsc
+  | FClose => if c =? 125 then FPlain else FFail
+  | FAccept => FAccept
+  | FFail => FFail
+  end.
+Definition fmt_final (st : fmt_state) : bool :=
+  match st with FPlain | FOpen | FAccept => true | FEsc | FClose | FFail => false end.
+Definition fmt_run (st : fmt_state) (l : list Z) : bool := fmt_final (fold_left fmt_next l st).
+Definition fmt_dfa (l : list Z) : bool := fmt_run FPlain l.
 
 (* chrono::day / chrono::month constructors: "may hold any number in [0, 255]" (header comment, [time.cal.day.members]) *)
 Definition pre_day_month (d : Z) : bool := d <=? 255.
